@@ -101,6 +101,12 @@ def map_call_to_procedure_body(call, caller, callee=None):
         if var.shape and val.shape:
             decl_lbounds = [(getattr(val.shape[i], 'lower', sym.IntLiteral(1)),
                              getattr(dim, 'lower', sym.IntLiteral(1))) for i, dim in enumerate(var.shape)]
+            # The lower bound of an assumed-shape dummy (``v(:)``) is 1
+            if not (var.type.allocatable or var.type.pointer):
+                decl_lbounds = [
+                    (lb_val, sym.IntLiteral(1) if lb_var is None and isinstance(dim, sym.Range) else lb_var)
+                    for (lb_val, lb_var), dim in zip(decl_lbounds, var.shape)
+                ]
 
             for i, (lb_val, lb_var) in enumerate(decl_lbounds):
                 # we can't simply check if lb_val here as that would return a false negative if lb_val == 0
